@@ -289,6 +289,40 @@ pub fn case_value<T: V>(v: &T, r: &mut Rng, c: &mut Collector, q: &mut Vec<Pendi
     }
 }
 
+/// A headerless record / enum / tuple value as a *later version* would have written it: version 1, chunk 0 = the same
+/// fields, one empty added chunk. The reader (any definition of version 0) must read the same value and consume all of
+/// it — the reader's path through `AdtDeserializer::new` with regions, which data written by the same definition never takes.
+pub fn future_version_case<T: V>(v: &T, bytes: &[u8], c: &mut Collector, q: &mut Vec<Pending>) {
+    if bytes.first() != Some(&0) || bytes.len() > 20_000 {
+        return;
+    }
+    let rest = &bytes[1..];
+    let mut m: Vec<u8> = vec![1];
+    let mut push_zz = |n: usize, out: &mut Vec<u8>| {
+        let mut x = (n as u64) << 1;
+        loop {
+            let b = (x & 0x7f) as u8;
+            x >>= 7;
+            if x == 0 {
+                out.push(b);
+                break;
+            }
+            out.push(b | 0x80);
+        }
+    };
+    push_zz(rest.len(), &mut m);
+    push_zz(0, &mut m);
+    m.extend_from_slice(rest);
+    c.stat("future-version-cases");
+    let case = format!("type={} bytes={} origin=future version of {}", T::rust_name(), hex(&m), v.show());
+    match impl_decode_rest::<T>(&m) {
+        Out::Ok((v2, left)) if left.is_empty() && v.deep_eq(&v2) => {}
+        Out::Ok((v2, left)) => c.fail("cross-consume", "oracle", &format!("{}|future-version", T::rust_name()), case.clone(), format!("decoded {} leaving {} bytes", v2.show(), left.len())),
+        other => c.fail("rt", "oracle", &format!("{}|future-version", T::rust_name()), case.clone(), format!("the same fields under a version-1 header with an empty added chunk gave {}", other.kind())),
+    }
+    case_bytes::<T>(&m, "future-version", c, q, 0);
+}
+
 /// One raw / tampered byte string against one target type: totality on the implementation
 /// (C05), and "accepted means what the reference says" (C06).
 pub fn case_bytes<T: V>(b: &[u8], origin: &str, c: &mut Collector, q: &mut Vec<Pending>, alloc_budget: usize) {
